@@ -75,6 +75,55 @@ def mutants_of(tree: ast.Module):
             yield ("axis", getattr(n.value, "lineno", 0), i, None)
 
 
+PAIRS = [("1", "2"), ("min", "max"), ("left", "right"), ("lower", "upper"), ("first", "last"), ("start", "end"), ("ra", "dec"), ("row", "col"), ("rows", "cols"), ("self", "other"), ("lo", "hi"), ("dd", "rr"), ("dr", "rd"), ("data", "random"), ("reference", "unknown"), ("ref", "unk"), ("weights", "redshifts")]
+
+
+def _pair_of(name: str) -> str | None:
+    """the other member of a naming pair: sum_weights1 -> sum_weights2, zmin -> zmax, left -> right, self -> other"""
+    import re as _re
+
+    for a, b in PAIRS:
+        for x, y in ((a, b), (b, a)):
+            if x in ("1", "2"):
+                if _re.search(r"[A-Za-z_]" + x + "$", name):
+                    return name[:-1] + y
+            elif name == x:
+                return y
+            elif name.endswith("_" + x) or name.endswith(x) and len(name) > len(x) and name[-len(x) - 1] in "_z":
+                return name[: -len(x)] + y
+            elif name.startswith(x + "_"):
+                return y + name[len(x) :]
+    return None
+
+
+def mutants2_of(tree: ast.Module):
+    """second operator set: wrong member of a naming pair, dropped keyword argument, dropped conjunct, += -> ="""
+    nodes = list(ast.walk(tree))
+    infunc = set()
+    for f in nodes:
+        if isinstance(f, (ast.FunctionDef, ast.AsyncFunctionDef)):
+            for st in f.body:
+                for x in ast.walk(st):
+                    infunc.add(id(x))
+    for i, n in enumerate(nodes):
+        if id(n) not in infunc:
+            continue
+        ln = getattr(n, "lineno", 0)
+        if isinstance(n, ast.Name) and isinstance(n.ctx, ast.Load) and _pair_of(n.id):
+            yield ("pairname", ln, i, None)
+        elif isinstance(n, ast.Attribute) and isinstance(n.ctx, ast.Load) and _pair_of(n.attr):
+            yield ("pairattr", ln, i, None)
+        elif isinstance(n, ast.Call) and n.keywords and any(k.arg for k in n.keywords):
+            for j, k in enumerate(n.keywords):
+                if k.arg:
+                    yield (f"dropkw{j}", ln, i, None)
+        elif isinstance(n, ast.BoolOp) and len(n.values) >= 2:
+            for j in range(len(n.values)):
+                yield (f"dropconj{j}", ln, i, None)
+        elif isinstance(n, ast.AugAssign):
+            yield ("augassign", ln, i, None)
+
+
 def apply_mutant(src: str, kind: str, idx: int) -> str | None:
     tree = ast.parse(src)
     nodes = list(ast.walk(tree))
@@ -119,6 +168,30 @@ def apply_mutant(src: str, kind: str, idx: int) -> str | None:
             return None
     elif kind == "axis":
         n.value.value = 1 - n.value.value
+    elif kind == "pairname":
+        n.id = _pair_of(n.id)
+    elif kind == "pairattr":
+        n.attr = _pair_of(n.attr)
+    elif kind.startswith("dropkw"):
+        j = int(kind[6:])
+        del n.keywords[j]
+    elif kind.startswith("dropconj"):
+        j = int(kind[8:])
+        vals = [v for k_, v in enumerate(n.values) if k_ != j]
+        par = parents[id(n)]
+        repl = vals[0] if len(vals) == 1 else ast.BoolOp(op=n.op, values=vals)
+        for f, v in ast.iter_fields(par):
+            if v is n:
+                setattr(par, f, repl)
+            elif isinstance(v, list) and n in v:
+                v[v.index(n)] = repl
+    elif kind == "augassign":
+        par = parents[id(n)]
+        new_ = ast.copy_location(ast.Assign(targets=[n.target], value=n.value), n)
+        for f in ("body", "orelse", "finalbody"):
+            v = getattr(par, f, None)
+            if isinstance(v, list) and n in v:
+                v[v.index(n)] = new_
     ast.fix_missing_locations(tree)
     try:
         out = ast.unparse(tree) + "\n"
@@ -128,9 +201,10 @@ def apply_mutant(src: str, kind: str, idx: int) -> str | None:
     return out
 
 
-def gen(outdir: str) -> None:
+def gen(outdir: str, second: bool = False) -> None:
     os.makedirs(outdir, exist_ok=True)
     index = []
+    gen_of = mutants2_of if second else mutants_of
     for rel in FILES:
         p = os.path.join(SRC, rel)
         if not os.path.exists(p):
@@ -138,7 +212,7 @@ def gen(outdir: str) -> None:
         src = open(p, encoding="utf-8").read()
         base = ast.unparse(ast.parse(src)) + "\n"
         tree = ast.parse(src)
-        for kind, ln, idx, _ in mutants_of(tree):
+        for kind, ln, idx, _ in gen_of(tree):
             out = apply_mutant(src, kind, idx)
             if out is None or out == base:
                 continue
@@ -218,7 +292,7 @@ def show(outdir: str) -> None:
 if __name__ == "__main__":
     cmd, outdir = sys.argv[1], sys.argv[2]
     if cmd == "gen":
-        gen(outdir)
+        gen(outdir, "--second" in sys.argv)
     elif cmd == "run":
         jobs = int(sys.argv[sys.argv.index("--jobs") + 1]) if "--jobs" in sys.argv else 8
         only = sys.argv[sys.argv.index("--only") + 1] if "--only" in sys.argv else None
